@@ -565,7 +565,10 @@ class Interp:
             for t in st.targets:
                 if isinstance(t, ast.Subscript):
                     obj = self.eval(mod, t.value, env)
-                    del obj[self.eval_index(mod, t.slice, env)]
+                    try:
+                        del obj[self.eval_index(mod, t.slice, env)]
+                    except (KeyError, IndexError) as ex:
+                        raise InterpRaise(type(ex).__name__, st)
                 else:
                     self.unsupported(mod, st)
         elif isinstance(st, ast.Try):
